@@ -2,7 +2,8 @@
   Property C10 — RFC 6902 input is read faithfully (never more permissive than the RFC).
   Statement file (proofs in JdProofs/PatchNeverMorePermissive.lean, namespace `Jd.NMP`: the main claim
   and parse-back with the full reader; JdProofs/PatchParseBack.lean, namespace `Jd.PB`: parse-back for
-  the element loop, composed there with PatchRender and StrictPatch).
+  the element loop, composed there with PatchRender and StrictPatch; JdProofs/PatchOwnOutput.lean,
+  namespace `Jd.Own`: the LAST SENTENCE of the property as a closed theorem about `Diff`, section 2b).
 
   Model side (JdModel/PatchFmt.lean, JdModel/Pointer.lean):
     `readPatchOps ops`   `ReadPatchString` on the list of operations `{op, path, value}`: the element
@@ -75,6 +76,48 @@
   the earlier statements about the element loop alone (`readPatchLoop`), which are still true and are
   what the full-reader statements are proved from.
 
+  THE LAST SENTENCE, CLOSED (section 2b). The statements of section 2 take "`d` lies in the grammar
+  `PBwf`", `jdShaped`, `hunkListDoc` and "`d` turns `a` into `b`" as HYPOTHESES about the diff. For
+  `d = a.Diff(b)` (list reading, strict strategy) they are now THEOREMS about `Diff`, and the sentence
+  is stated about the library functions only — `diffM`, `renderPatchOps` (`RenderPatch`), `readPatchOps`
+  (`ReadPatchString`: element loop AND context check), `patchM` (`Patch`) — with NO hypothesis about hunks:
+    `produced_diff_hunk_shapes`    every hunk of `a.Diff(b)` is `Own.OwnH` (strict; a plain replacement
+                                   without context at a path that does not end in an index, or a list
+                                   hunk with one context line on each side whose before-context is a
+                                   real value only at an index ≥ 1) and the paths of the hunks are
+                                   PAIRWISE DIFFERENT (the inter-hunk condition of the grammar);
+    `produced_diff_in_grammar`, `…_of_paths`   `PBwf (a.Diff(b))`, every hunk `jdShaped`, `hunkListDoc`;
+    `own_patch_output_reproduces_target` (all object keys expressible as JSON Pointer tokens),
+    `…_of_paths` (sharp: the paths of the diff are expressible, which is exactly when `RenderPatch`
+    succeeds), `…_noPrecision`, `…_rawDoc` (documents as read from text):
+        `RenderPatch(a.Diff(b))` succeeds with operations `ops`; `ReadPatchString` reads `ops` to a diff
+        `d'` (the normal form `normPB (a.Diff(b))`); `a.Patch(d')` succeeds with a list document `r` that
+        is structurally equal to `b` (both ways) and `Equals` `b` under the options of the diff.
+    `object_against_void_not_in_grammar`: the ONE diff of the domain outside the grammar, `{…}.Diff(void)`
+        (`- {…}` / `+ void` at the root: it adds the void marker). `RenderPatch` skips an addition whose
+        first value is void, the operations are those of the hunk `- {…}` alone, which is in the
+        grammar; the closed theorems INCLUDE this pair (only `d' = normPB …` is stated outside it).
+  Hypotheses of section 2b and why: `dispatchTag o = .list`, `isMerge o = false` (C10 is a list-mode
+    property); `a.listDoc`, `a.wf`, `a.finiteNums`, the same of `b`, `DPL.HashOK o a b`, `DPL.ZeroOK a b`,
+    `FloatLaws`: the C01 list theorem (the native diff applies); `PRC.vfree a`, `PRC.vfree b` (no void
+    marker inside), `PRC.lenLe Na a`, `PRC.lenLe Nb b`, `Na + Nb < 2^53` (indices written travel through a
+    float64): the domain of JdProofs/PatchRenderClosed.lean; `PRC.keysExpressible` (decidable: a key is
+    not number-like and not "-") or `PRC.PE h.path` for the hunks; `FloatEq0` (different paths are not
+    coalesced by the reader); `DPL.PrecMono o` for `Equals` under a Precision option; and
+    `Own.elemsRaw a` (Bool): no array node that is an ELEMENT of an array of `a` is a typed `jsonList`
+    (root and object members may be typed; nothing is asked of `b`). It follows from `a.rawDoc`
+    (`raw_documents_have_no_typed_list_element`), i.e. it holds of every document a reader produces.
+    It CANNOT be dropped — `typed_list_element_witness` (genuine; replayed on the Go code):
+    `[null, [true]]` whose inner array is a typed `jsonList`, against `[null, [false]]` as read from
+    text. Every other hypothesis holds (`typed_list_element_witness_hypotheses`), the native diff applies,
+    `RenderPatch` succeeds (`test /1 [true]; remove /1 [true]; add /1 [false]`), `ReadPatchString` ACCEPTS
+    these operations — and `Patch` of what was read FAILS: `jsonList.diff` type-asserts the other side
+    without dispatching it and replaces the element wholesale, a hunk at an array index WITHOUT
+    context lines; the reader turns "no context test" into the boundary marker on both sides, and a
+    void before-context matches at index 0 only. NO READER PRODUCES SUCH A NODE: documents read from
+    JSON / YAML text carry plain `jsonArray` nodes only; the state arises only when `Patch` stores a
+    patched child into the receiver's backing array. A boundary of the domain, kept as a witness.
+
   HYPOTHESES and why
     `FloatLaws` (symmetry / reflexivity of IEEE `|x − y| ≤ eps`, opaque to the kernel): a context `test`
        compares document and patch value in the other order than jd's patch does;
@@ -90,7 +133,8 @@
        for accepted canonical patches it reduces to `i + |Remove| < 2^53`
        (`never_more_permissive_rfc6901`);
     `PBwf d`, `NMP.Gwf d` (Bool): the domain of parse-back — strict hunks, key / index paths
-       expressible as JSON Pointers, at most one line of context per side, adjacent hunks told apart.
+       expressible as JSON Pointers, at most one line of context per side, adjacent hunks told apart
+       (sections 2 and 5; for `d = a.Diff(b)` a theorem: section 2b).
     An element at the append index (`-`) that removes, or an `add` at `-` after context tests, is
     NOT excluded by a hypothesis: where the reader accepts them jd's `Patch` never applies them, so
     the main statement holds for them too.
@@ -98,11 +142,14 @@
   NOT PROVED / OUTSIDE: the text layer around the operations (JSON decoding of the patch document is
   `json.Unmarshal`, external; `never_more_permissive_from_entry_point` starts from the parsed
   document); operations other than `test` / `remove` / `add` (the reader rejects them); pointer texts
-  in non-canonical spelling (observations above); set / multiset readings (C10 is a list-mode
-  property). The converse (jd accepts whatever the RFC accepts) is not claimed: jd may be stricter.
+  in non-canonical spelling (observations above); set / multiset readings and the merge strategy (C10
+  is a list-mode property); the last sentence for a first document with a typed `jsonList` ELEMENT
+  (false there: `typed_list_element_witness`; no reader produces such a node). The converse (jd accepts
+  whatever the RFC accepts) is not claimed: jd may be stricter.
 -/
 import JdProofs.PatchParseBack
 import JdProofs.PatchNeverMorePermissive
+import JdProofs.PatchOwnOutput
 
 set_option autoImplicit false
 
@@ -233,6 +280,203 @@ theorem grammar_accepted_and_never_more_permissive (L : FloatLaws) (F : FloatEq0
     ∀ r, patchM t (d0.map NMP.normG) = .ok r →
       ∃ r', eval t (ops.map PatchOp.toSpec) = some r' ∧ untag r' = untag r :=
   NMP.grammar_never_more_permissive L F hG hr hv hw hl
+
+/-! ## 2b. The last sentence of the property, closed: "reading jd's own JSON Patch output and
+    applying it to a reproduces b"
+
+  Names of `Jd.Own`, `Jd.PRC` and `Jd.DPL` are written qualified. `PRC.vfree x`: no void marker inside `x`;
+  `PRC.lenLe N x`: every array of `x` has at most `N` elements; `PRC.keysExpressible x`: every object key
+  of `x` can be written as a JSON Pointer token that reads back as that key (not number-like, not
+  "-"); `PRC.PE p`: the path `p` is expressible; `Own.elemsRaw x`: no array node that is an ELEMENT of
+  an array of `x` is a typed `jsonList`; `DPL.HashOK o a b`, `DPL.ZeroOK a b`: no hash collision / no `0`,
+  `-0` pair between sub-terms of `a` and of `b` (C01). -/
+
+/-- what a reader produces satisfies the extra hypothesis: a document whose array nodes are all
+    plain `jsonArray` nodes has no typed `jsonList` element -/
+theorem raw_documents_have_no_typed_list_element {a : Json} (h : a.rawDoc = true) :
+    Own.elemsRaw a = true :=
+  Own.elemsRaw_of_rawDoc h
+
+/-- **the shape of the hunks of `a.Diff(b)`** (list reading, strict strategy): every hunk is `Own.OwnH`
+    — strict; removed values are list documents, well-formed, finite; all payloads list documents;
+    a plain replacement (no context, at most one value on each side) at a path that does NOT end
+    in a list index, or a list hunk `pp ++ [idx s]` with one before- and one after-context line whose
+    before-context is a real value only if `s ≥ 1` — and the paths of the hunks are PAIRWISE
+    DIFFERENT (so the reader never coalesces two of them) -/
+theorem produced_diff_hunk_shapes (o : Opts) (ho : dispatchTag o = .list) (hm : isMerge o = false)
+    (a b : Json) (ha1 : a.listDoc = true) (ha2 : a.wf = true) (ha3 : a.finiteNums = true)
+    (ha4 : PRC.vfree a = true) (ha5 : Own.elemsRaw a = true)
+    (hb1 : b.listDoc = true) (hb2 : b.wf = true) :
+    (∀ h ∈ diffM o a b, Own.OwnH h) ∧
+    (diffM o a b).Pairwise (fun h1 h2 => h1.path ≠ h2.path) :=
+  Own.diffM_own o ho hm a b ha1 ha2 ha3 ha4 ha5 hb1 hb2
+
+/-- **`a.Diff(b)` lies in the parse-back grammar** (sharp form: the paths of the diff are
+    expressible, which is exactly when `RenderPatch` succeeds). `(a.isObj && b.isVoid) = false`
+    excludes the one diff outside the grammar (`object_against_void_not_in_grammar`) -/
+theorem produced_diff_in_grammar_of_paths (F : FloatEq0) (o : Opts) (ho : dispatchTag o = .list)
+    (hm : isMerge o = false) (a b : Json)
+    (ha1 : a.listDoc = true) (ha2 : a.wf = true) (ha3 : a.finiteNums = true)
+    (ha4 : PRC.vfree a = true) (ha5 : Own.elemsRaw a = true)
+    (hb1 : b.listDoc = true) (hb2 : b.wf = true) (hb4 : PRC.vfree b = true)
+    {Na Nb : Nat} (la : PRC.lenLe Na a = true) (lb : PRC.lenLe Nb b = true) (hN : Na + Nb < 2 ^ 53)
+    (hv : (a.isObj && b.isVoid) = false) (hp : ∀ h ∈ diffM o a b, PRC.PE h.path) :
+    PBwf (diffM o a b) = true ∧ (diffM o a b).all jdShaped = true ∧
+      (diffM o a b).all hunkListDoc = true :=
+  Own.diffM_in_grammar_of_paths o ho hm a b ha1 ha2 ha3 ha4 ha5 hb1 hb2 hb4 F la lb hN hv hp
+
+/-- … when the object keys of `a` and `b` are expressible as JSON Pointer tokens -/
+theorem produced_diff_in_grammar (F : FloatEq0) (o : Opts) (ho : dispatchTag o = .list)
+    (hm : isMerge o = false) (a b : Json)
+    (ha1 : a.listDoc = true) (ha2 : a.wf = true) (ha3 : a.finiteNums = true)
+    (ha4 : PRC.vfree a = true) (ha5 : Own.elemsRaw a = true)
+    (hb1 : b.listDoc = true) (hb2 : b.wf = true) (hb4 : PRC.vfree b = true)
+    {Na Nb : Nat} (la : PRC.lenLe Na a = true) (lb : PRC.lenLe Nb b = true) (hN : Na + Nb < 2 ^ 53)
+    (hv : (a.isObj && b.isVoid) = false)
+    (ka : PRC.keysExpressible a = true) (kb : PRC.keysExpressible b = true) :
+    PBwf (diffM o a b) = true ∧ (diffM o a b).all jdShaped = true ∧
+      (diffM o a b).all hunkListDoc = true :=
+  Own.diffM_in_grammar o ho hm a b ha1 ha2 ha3 ha4 ha5 hb1 hb2 hb4 F la lb hN hv ka kb
+
+/-- the one diff of the domain that is NOT in the grammar: an object against "no document" is the
+    single hunk `- {…}` / `+ void` at the root (`PRC.objVoidHunk`); it adds the void marker -/
+theorem object_against_void_not_in_grammar (kvs : List (String × Json)) :
+    PBwf [PRC.objVoidHunk kvs] = false :=
+  Own.objVoidHunk_not_in_grammar kvs
+
+/-- **C10, last sentence, closed (sharp form).** For `a`, `b` in the C01 list domain, array lengths
+    bounded with `Na + Nb < 2^53`, no typed `jsonList` node among the array elements of `a`, and the
+    paths of `a.Diff(b)` expressible as JSON Pointers: `RenderPatch(a.Diff(b))` succeeds with operations
+    `ops`; `ReadPatchString` (element loop AND context check) reads `ops` to a diff `d'` — the normal
+    form `normPB (a.Diff(b))`, except for an object against void —; the library's `a.Patch(d')` succeeds
+    with a list document `r` that is structurally equal to `b` (both ways) and `Equals` `b` under the
+    options of the diff (`DPL.PrecMono o`: when there is a Precision option). There is no hypothesis
+    about the hunks -/
+theorem own_patch_output_reproduces_target_of_paths (L : FloatLaws) (F : FloatEq0) (o : Opts)
+    (ho : dispatchTag o = .list) (hm : isMerge o = false) (a b : Json)
+    (ha1 : a.listDoc = true) (ha2 : a.wf = true) (ha3 : a.finiteNums = true)
+    (ha4 : PRC.vfree a = true) (ha5 : Own.elemsRaw a = true)
+    (hb1 : b.listDoc = true) (hb2 : b.wf = true) (hb3 : b.finiteNums = true)
+    (hb4 : PRC.vfree b = true)
+    {Na Nb : Nat} (la : PRC.lenLe Na a = true) (lb : PRC.lenLe Nb b = true) (hN : Na + Nb < 2 ^ 53)
+    (H : DPL.HashOK o a b) (Z : DPL.ZeroOK a b)
+    (hp : ∀ h ∈ diffM o a b, PRC.PE h.path) :
+    ∃ ops d' r, renderPatchOps (diffM o a b) = .ok ops ∧ readPatchOps ops = .ok d' ∧
+      ((a.isObj && b.isVoid) = false → d' = normPB (diffM o a b)) ∧
+      patchM a d' = .ok r ∧ specEq r b = true ∧ specEq b r = true ∧ r.listDoc = true ∧
+      (DPL.PrecMono o → equivB o r b = true ∧ equals o r b = true) :=
+  Own.own_patch_output_reproduces_target_of_paths L F o ho hm a b ha1 ha2 ha3 ha4 ha5 hb1 hb2 hb3 hb4
+    la lb hN H Z hp
+
+/-- **C10, last sentence, closed**: the same for documents all of whose object keys are expressible
+    as JSON Pointer tokens (`PRC.keysExpressible`, decidable) -/
+theorem own_patch_output_reproduces_target (L : FloatLaws) (F : FloatEq0) (o : Opts)
+    (ho : dispatchTag o = .list) (hm : isMerge o = false) (a b : Json)
+    (ha1 : a.listDoc = true) (ha2 : a.wf = true) (ha3 : a.finiteNums = true)
+    (ha4 : PRC.vfree a = true) (ha5 : Own.elemsRaw a = true)
+    (hb1 : b.listDoc = true) (hb2 : b.wf = true) (hb3 : b.finiteNums = true)
+    (hb4 : PRC.vfree b = true)
+    {Na Nb : Nat} (la : PRC.lenLe Na a = true) (lb : PRC.lenLe Nb b = true) (hN : Na + Nb < 2 ^ 53)
+    (H : DPL.HashOK o a b) (Z : DPL.ZeroOK a b)
+    (ka : PRC.keysExpressible a = true) (kb : PRC.keysExpressible b = true) :
+    ∃ ops d' r, renderPatchOps (diffM o a b) = .ok ops ∧ readPatchOps ops = .ok d' ∧
+      ((a.isObj && b.isVoid) = false → d' = normPB (diffM o a b)) ∧
+      patchM a d' = .ok r ∧ specEq r b = true ∧ specEq b r = true ∧ r.listDoc = true ∧
+      (DPL.PrecMono o → equivB o r b = true ∧ equals o r b = true) :=
+  Own.own_patch_output_reproduces_target L F o ho hm a b ha1 ha2 ha3 ha4 ha5 hb1 hb2 hb3 hb4 la lb hN
+    H Z ka kb
+
+/-- the headline without a Precision option: what `ReadPatchString` reads from jd's own JSON Patch
+    output, applied to `a`, gives a document that is structurally equal to `b` and `Equals` `b` -/
+theorem own_patch_output_reproduces_target_noPrecision (L : FloatLaws) (F : FloatEq0) (o : Opts)
+    (ho : dispatchTag o = .list) (hm : isMerge o = false) (hprec : precOf o = 0) (a b : Json)
+    (ha1 : a.listDoc = true) (ha2 : a.wf = true) (ha3 : a.finiteNums = true)
+    (ha4 : PRC.vfree a = true) (ha5 : Own.elemsRaw a = true)
+    (hb1 : b.listDoc = true) (hb2 : b.wf = true) (hb3 : b.finiteNums = true)
+    (hb4 : PRC.vfree b = true)
+    {Na Nb : Nat} (la : PRC.lenLe Na a = true) (lb : PRC.lenLe Nb b = true) (hN : Na + Nb < 2 ^ 53)
+    (H : DPL.HashOK o a b) (Z : DPL.ZeroOK a b)
+    (ka : PRC.keysExpressible a = true) (kb : PRC.keysExpressible b = true) :
+    ∃ ops d' r, renderPatchOps (diffM o a b) = .ok ops ∧ readPatchOps ops = .ok d' ∧
+      patchM a d' = .ok r ∧ specEq r b = true ∧ equals o r b = true :=
+  Own.own_patch_output_reproduces_target_noPrecision L F o ho hm hprec a b ha1 ha2 ha3 ha4 ha5 hb1 hb2
+    hb3 hb4 la lb hN H Z ka kb
+
+/-- **for documents as read from text** (`rawDoc`: every array node a plain `jsonArray`, what
+    `ReadJsonString` / `ReadYamlString` produce): `elemsRaw` and `listDoc` follow, no hypothesis beyond
+    the domain of C01 and of `RenderPatch` remains -/
+theorem own_patch_output_reproduces_target_rawDoc (L : FloatLaws) (F : FloatEq0) (o : Opts)
+    (ho : dispatchTag o = .list) (hm : isMerge o = false) (a b : Json)
+    (ha1 : a.rawDoc = true) (ha2 : a.wf = true) (ha3 : a.finiteNums = true)
+    (ha4 : PRC.vfree a = true)
+    (hb1 : b.rawDoc = true) (hb2 : b.wf = true) (hb3 : b.finiteNums = true)
+    (hb4 : PRC.vfree b = true)
+    {Na Nb : Nat} (la : PRC.lenLe Na a = true) (lb : PRC.lenLe Nb b = true) (hN : Na + Nb < 2 ^ 53)
+    (H : DPL.HashOK o a b) (Z : DPL.ZeroOK a b)
+    (ka : PRC.keysExpressible a = true) (kb : PRC.keysExpressible b = true) :
+    ∃ ops d' r, renderPatchOps (diffM o a b) = .ok ops ∧ readPatchOps ops = .ok d' ∧
+      ((a.isObj && b.isVoid) = false → d' = normPB (diffM o a b)) ∧
+      patchM a d' = .ok r ∧ specEq r b = true ∧ specEq b r = true ∧ r.listDoc = true ∧
+      (DPL.PrecMono o → equivB o r b = true ∧ equals o r b = true) :=
+  Own.own_patch_output_reproduces_target_rawDoc L F o ho hm a b ha1 ha2 ha3 ha4 hb1 hb2 hb3 hb4 la lb
+    hN H Z ka kb
+
+/-! ### `elemsRaw a` cannot be dropped (no reader produces such a node)
+
+  `Own.Witness.wA` = `[null, [true]]` whose INNER array is a typed `jsonList` node, `Own.Witness.wB` =
+  `[null, [false]]` as read from text; `Own.Witness.wOps` = `test /1 [true]; remove /1 [true]; add /1 [false]`;
+  `Own.Witness.wRead` = the hunk `@ [1]` / `[` / `- [true]` / `+ [false]` / `]` (both context lines the array
+  boundary marker). Documents read from JSON / YAML text never contain a typed `jsonList` element
+  (`raw_documents_have_no_typed_list_element`); in Go the state arises only when `Patch` stores a
+  patched child into the receiver's backing array. Replayed on the Go code. -/
+
+/-- every hypothesis of `own_patch_output_reproduces_target` EXCEPT `elemsRaw` holds for the pair -/
+theorem typed_list_element_witness_hypotheses :
+    Own.Witness.wA.listDoc = true ∧ Own.Witness.wA.wf = true ∧ Own.Witness.wA.finiteNums = true ∧
+    PRC.vfree Own.Witness.wA = true ∧
+    Own.Witness.wB.listDoc = true ∧ Own.Witness.wB.wf = true ∧ Own.Witness.wB.finiteNums = true ∧
+    PRC.vfree Own.Witness.wB = true ∧
+    PRC.lenLe 2 Own.Witness.wA = true ∧ PRC.lenLe 2 Own.Witness.wB = true ∧ 2 + 2 < 2 ^ 53 ∧
+    DPL.HashOK [] Own.Witness.wA Own.Witness.wB ∧ DPL.ZeroOK Own.Witness.wA Own.Witness.wB ∧
+    PRC.keysExpressible Own.Witness.wA = true ∧ PRC.keysExpressible Own.Witness.wB = true ∧
+    Own.elemsRaw Own.Witness.wA = false :=
+  Own.Witness.hyps
+
+/-- **the witness**: the native diff applies to `wA` and gives `wB` (C01); `RenderPatch` succeeds;
+    `ReadPatchString` ACCEPTS the operations; but `Patch` of the diff read back returns an ERROR. The
+    diff is in the grammar `PBwf` hunk-wise but its hunk is not `jdShaped`: a wholesale replacement
+    at an ARRAY INDEX without context lines, which the reader reads as "both neighbours are the
+    array boundary" -/
+theorem typed_list_element_witness (L : FloatLaws) (F : FloatEq0) :
+    (∃ r, applyStrictAll Own.Witness.wA (diffM [] Own.Witness.wA Own.Witness.wB) = some r ∧
+      specEq r Own.Witness.wB = true) ∧
+    renderPatchOps (diffM [] Own.Witness.wA Own.Witness.wB) = .ok Own.Witness.wOps ∧
+    readPatchOps Own.Witness.wOps = .ok [Own.Witness.wRead] ∧
+    patchM Own.Witness.wA [Own.Witness.wRead] = .err ∧
+    PBwf (diffM [] Own.Witness.wA Own.Witness.wB) = true ∧
+    (diffM [] Own.Witness.wA Own.Witness.wB).all jdShaped = false :=
+  Own.Witness.typed_list_element_witness L F
+
+/-! Non-vacuity of section 2b: `PRC.Example.exA` = `{"a~/b": [true, 1, [1], null], "k": null}`,
+    `PRC.Example.exB` = `{"a~/b": [false, 1, [1, 1], null, null], "m": 1}` (five hunks, three of them list
+    hunks, one in a nested list; eleven operations; a key that needs escaping): every hypothesis of
+    the closed theorem holds (`PRC.Example.hyps`, `Own.Example.exA_elemsRaw`, `exA_rawDoc`); only the IEEE
+    laws remain. An object against "no document" goes through the closed theorem as well. -/
+
+example (L : FloatLaws) (F : FloatEq0) :
+    ∃ ops d' r, renderPatchOps (diffM [] PRC.Example.exA PRC.Example.exB) = .ok ops ∧
+      readPatchOps ops = .ok d' ∧ patchM PRC.Example.exA d' = .ok r ∧
+      specEq r PRC.Example.exB = true ∧ equals [] r PRC.Example.exB = true := by
+  obtain ⟨h1, h2, h3, h4, h5, h6, h7, h8, h9, h10, h11, h12, h13, h14, h15, _⟩ := PRC.Example.hyps L
+  exact own_patch_output_reproduces_target_noPrecision L F [] rfl rfl rfl _ _ h1 h2 h3 h4
+    Own.Example.exA_elemsRaw h5 h6 h7 h8 h9 h10 h11 h12 h13 h14 h15
+
+example (L : FloatLaws) (F : FloatEq0) : PBwf (diffM [] PRC.Example.exA PRC.Example.exB) = true ∧
+    (diffM [] PRC.Example.exA PRC.Example.exB).all jdShaped = true ∧
+    (diffM [] PRC.Example.exA PRC.Example.exB).all hunkListDoc = true := by
+  obtain ⟨h1, h2, h3, h4, h5, h6, _, h8, h9, h10, h11, _, _, h14, h15, h16⟩ := PRC.Example.hyps L
+  exact produced_diff_in_grammar F [] rfl rfl _ _ h1 h2 h3 h4 Own.Example.exA_elemsRaw h5 h6 h8 h9
+    h10 h11 h16 h14 h15
 
 /-! ## 3. Regressions of the repaired defect D28 (the reader now REJECTS every former witness)
 
